@@ -572,6 +572,66 @@ func expRun(n, threads, nops int, seed int64) M {
 	return M{"kind": "equal", "n": n, "what": "every inserted timeout fires exactly once", "ops": []M{{"t": 0, "call": tick(), "ret": tick(), "f": "equal", "a": a, "b": b}}}
 }
 
+// expDeleteRun: all goroutines insert into the same, not yet existing second at the same moment (a barrier per step), then half of
+// the timeouts are cancelled concurrently, then everything is swept: exactly the timeouts that were not cancelled fire, each once.
+func expDeleteRun(n, threads, steps int, seed int64) M {
+	l := expiration.NewList()
+	base := time.Unix(1700000000, 0)
+	type item struct {
+		id string
+		d  time.Time
+	}
+	items := make([][]item, threads)
+	var wg sync.WaitGroup
+	for step := 0; step < steps; step++ {
+		start := make(chan struct{})
+		for t := 0; t < threads; t++ {
+			wg.Add(1)
+			go func(t int) {
+				defer wg.Done()
+				r := rand.New(rand.NewSource(seed*7919 + int64(step*131+t)))
+				it := item{fmt.Sprintf("d%d-%d", t, step), base.Add(time.Duration(step)*time.Second + time.Duration(r.Intn(400))*time.Millisecond)}
+				<-start
+				l.Insert(it.id, it.d)
+				items[t] = append(items[t], it)
+			}(t)
+		}
+		close(start)
+		wg.Wait()
+	}
+	var mu sync.Mutex
+	deleted := map[string]bool{}
+	for t := 0; t < threads; t++ {
+		wg.Add(1)
+		go func(t int) {
+			defer wg.Done()
+			for i, it := range items[t] {
+				if (i+t)%2 == 0 {
+					l.Delete(it.id, it.d)
+					mu.Lock()
+					deleted[it.id] = true
+					mu.Unlock()
+				}
+			}
+		}(t)
+	}
+	wg.Wait()
+	a, b := []string{}, []string{}
+	for t := range items {
+		for _, it := range items[t] {
+			if !deleted[it.id] {
+				a = append(a, it.id)
+			}
+		}
+	}
+	for _, v := range l.Expire(base.Add(time.Hour)) {
+		b = append(b, v.(string))
+	}
+	sort.Strings(a)
+	sort.Strings(b)
+	return M{"kind": "equal", "n": n, "what": "exactly the timeouts that were not cancelled fire, each once", "ops": []M{{"t": 0, "call": tick(), "ret": tick(), "f": "equal", "a": a, "b": b}}}
+}
+
 func main() {
 	out := flag.String("out", "hist.ndjson", "")
 	n := flag.Int("n", 20, "histories per object")
@@ -630,6 +690,8 @@ func main() {
 			emit(crdtRun(k, *threads, *nops*4, s))
 			k++
 			emit(expRun(k, *threads, *nops*6, s))
+			k++
+			emit(expDeleteRun(k, *threads*2, 12, s))
 		}
 	}
 	w.Flush()
